@@ -186,11 +186,11 @@ def run(ctx):
                 distinct.add(("ls", tuple(op.get("files") or [])))
                 # direct oracle: every key file <name>_private.pem of the tree is listed under <name>; every listed name is a
                 # proper prefix of a file's base name that ends in the entry type
-                ml = re.fullmatch(r"listnames \[([0-9a-f,]*)\]", line)
+                ml = re.fullmatch(r"listnames \[([0-9a-fn:,]*)\]", line)
                 if not ml:
                     found_violation |= ctx.violation("C03:fs:list-garbage", line[:200], "fs-list.jsonl", ops[i])
                 else:
-                    listed = [unhex(x) for x in ml.group(1).split(",") if x]
+                    listed = [unhex(x[2:]) for x in ml.group(1).split(",") if x.startswith("n:")]
                     bases = [unhex(x).split(b"/")[-1] for x in op.get("files") or []]
                     sfx = b"private.pem"
                     missing = [b_ for b_ in bases if b_.endswith(b"_" + sfx) and len(b_) > len(sfx) + 1 and b_[:-len(sfx) - 1] not in listed]
